@@ -177,7 +177,6 @@ func rulesRangeCode(p *Prog, r *Report) {
 		}
 	}
 	// T6 / T7
-	bp := newBoundsProver(p, sharedEngineLite(p))
 	qz := &quantizer{p: p, elemVar: map[ssa.Value]string{}, inlineAll: true}
 	{
 		// sameLicenseGroup's meaning
@@ -192,86 +191,120 @@ func rulesRangeCode(p *Prog, r *Report) {
 		if f != nil {
 			got = f.String()
 		}
-		okSame := f != nil && !f.has("unknown") && canonBool(f) == canonBool(want)
+		okSame := f != nil && !f.has("unknown") && canonBool(normQF(f)) == canonBool(normQF(want))
 		if okSame {
 			r.OK("T6", "sameLicenseGroup", p.pos(same.Pos()), "both located ∧ same family index", got, true)
 		} else {
 			r.Bad("T6", "sameLicenseGroup", p.pos(same.Pos()), "the family gate does not mean 'both ids are located and their family indices are equal': "+got)
 		}
 	}
-	nCmp := 0
-	for _, fn := range p.RList {
-		fb := bp.forFn(fn)
-		for _, b := range fn.Blocks {
-			for _, in := range b.Instrs {
-				bo, ok := in.(*ssa.BinOp)
-				if !ok {
-					continue
+	// T6/T7 on the derived formulas: every function that orders version positions is inlined into one
+	// propositional formula (helpers seen through, integer results by what the helper returns), its atoms
+	// are mapped onto abstract propositions about the two terms, and the result is compared with the
+	// specified meaning by an exhaustive truth table. How the code is split into helpers does not matter.
+	roleL := ""
+	for k, n := range roleNames(p) {
+		if n == "licenseNode" {
+			roleL = k
+		}
+	}
+	type cmpSpec struct {
+		name string
+		fn   *ssa.Function
+		a, b string // descriptions of the two terms
+		spec func(A, B string) *qf
+	}
+	at := func(s string) *qf { return &qf{Op: "atom", Atom: s} }
+	and := func(xs ...*qf) *qf { return &qf{Op: "and", Args: xs} }
+	or := func(xs ...*qf) *qf { return &qf{Op: "or", Args: xs} }
+	gate := func(A, B string) *qf { return and(at("LOC("+A+")"), at("LOC("+B+")"), at("FAM")) }
+	gt := func(A, B string) *qf { return and(at("LIC("+A+")"), at("LIC("+B+")"), gate(A, B), at("LATER("+A+","+B+")")) }
+	eq := func(A, B string) *qf {
+		return and(at("LIC("+A+")"), at("LIC("+B+")"), or(at("IDEQ"), and(gate(A, B), at("VEQ"))))
+	}
+	var specs []cmpSpec
+	if fn := p.Func(p.ExpPkg, "compareGT"); fn != nil && len(fn.Params) == 2 {
+		specs = append(specs, cmpSpec{"compareGT", fn, "param:" + fn.Params[0].Name(), "param:" + fn.Params[1].Name(), gt})
+	}
+	if fn := p.Func(p.ExpPkg, "compareLT"); fn != nil && len(fn.Params) == 2 {
+		specs = append(specs, cmpSpec{"compareLT", fn, "param:" + fn.Params[0].Name(), "param:" + fn.Params[1].Name(), func(A, B string) *qf { return gt(B, A) }})
+	}
+	if fn := p.Func(p.ExpPkg, "compareEQ"); fn != nil && len(fn.Params) == 2 {
+		specs = append(specs, cmpSpec{"compareEQ", fn, "param:" + fn.Params[0].Name(), "param:" + fn.Params[1].Name(), eq})
+	}
+	iir := p.Func(p.ExpPkg, "(*nodePair).identifierInRange")
+	if iir == nil {
+		r.Unknown("T7", "identifierInRange", "-", "unresolved anchor")
+	} else {
+		recv := "param:" + iir.Params[0].Name()
+		specs = append(specs, cmpSpec{"identifierInRange", iir, recv + ".firstNode", recv + ".secondNode", func(A, B string) *qf { return or(gt(A, B), eq(A, B)) }})
+	}
+	dbg := map[string]string{}
+	for _, sp := range specs {
+		qq := &quantizer{p: p, elemVar: map[ssa.Value]string{}, inlineAll: true, seeInts: true}
+		f := qq.funcFormulaWith(sp.fn, 0, nil)
+		pos := p.pos(sp.fn.Pos())
+		if f == nil || f.has("unknown") || f.has("exists") || f.has("forall") {
+			r.Unknown("T7", sp.name+"|meaning", pos, "kind=undecided: not expressible as a propositional formula: "+fmt.Sprint(f))
+			continue
+		}
+		f = normQF(f)
+		var unmapped []string
+		af := mapAtoms(f, func(a string) *qf {
+			if n, neg, ok := abstractPosAtom(a, sp.a, sp.b, roleL, lk); ok {
+				if neg {
+					return qNot(at(n))
 				}
-				x, kx, okx := locLookup(bo.X)
-				y, ky, oky := locLookup(bo.Y)
-				if !okx || !oky || kx != lk.version || ky != lk.version {
-					continue
-				}
-				nCmp++
-				key := fmt.Sprintf("%s|versionGroup %s versionGroup", p.shortKey(fn), bo.Op)
-				gated := false
-				for cf := range fb.facts[b.Index] {
-					call, ok := cf.c.(*ssa.Call)
-					if !ok || !cf.pol || call.Call.StaticCallee() != same {
-						continue
-					}
-					a0, a1 := call.Call.Args[0], call.Call.Args[1]
-					if (a0 == x && a1 == y) || (a0 == y && a1 == x) {
-						gated = true
-					}
-				}
-				if gated {
-					r.OK("T6", key, p.pos(bo.Pos()), "dominated by sameLicenseGroup(...) == true on the same two ranges", "", true)
-				} else {
-					r.Bad("T6", key, p.pos(bo.Pos()), "version-group positions are compared without the family gate: '+' could reach an id of a different family (or a nil range is dereferenced)")
-				}
-				// T7 direction for the strict comparison: first argument's range on the left of '>'
-				if bo.Op == token.GTR || bo.Op == token.LSS {
-					first := rangeOfParam(x, fn, 0)
-					second := rangeOfParam(y, fn, 1)
-					name := fn.Name()
-					wantOp := token.GTR
-					if strings.HasSuffix(name, "LT") {
-						wantOp = token.LSS
-					}
-					k7 := fmt.Sprintf("%s|direction", p.shortKey(fn))
-					if first && second && bo.Op == wantOp {
-						r.OK("T7", k7, p.pos(bo.Pos()), "position(first) "+bo.Op.String()+" position(second)", "", true)
-					} else {
-						r.Bad("T7", k7, p.pos(bo.Pos()), fmt.Sprintf("%s compares positions as %s %s %s: the ordering of versions is reversed or applied to the wrong operands", name, whichParam(x, fn), bo.Op, whichParam(y, fn)))
-					}
+				return at(n)
+			}
+			unmapped = append(unmapped, a)
+			return at(a)
+		})
+		dbg[sp.name] = af.String()
+		want := sp.spec("A", "B")
+		// T6: true ⇒ both located and in the same family (or, for equality, the same id)
+		bad, n, ok := forAll([]*qf{af, want}, func(asg map[string]bool) bool {
+			v, _ := evalQ(af, asg)
+			if !v {
+				return true
+			}
+			return (asg["LOC(A)"] && asg["LOC(B)"] && asg["FAM"]) || asg["IDEQ"]
+		})
+		switch {
+		case !ok:
+			r.Unknown("T6", sp.name+"|gate", pos, fmt.Sprintf("kind=undecided: %d atoms", n))
+		case bad != nil:
+			r.Bad("T6", sp.name+"|gate", pos, "version-group positions decide the result without the family gate ('both ids located and in the same family'): '+' could reach an id of a different family, or a nil range is dereferenced; "+showAsg(bad))
+		default:
+			r.OK("T6", sp.name+"|gate", pos, "true ⇒ both located ∧ same family (or same id)", af.String(), true)
+		}
+		// T7: exactly the specified meaning
+		bad, n, ok = forAll([]*qf{af, want}, func(asg map[string]bool) bool {
+			// LATER(A,B) and LATER(B,A) and VEQ exclude each other
+			cnt := 0
+			for _, k := range []string{"LATER(A,B)", "LATER(B,A)", "VEQ"} {
+				if asg[k] {
+					cnt++
 				}
 			}
+			if cnt > 1 {
+				return true
+			}
+			v, _ := evalQ(af, asg)
+			w, _ := evalQ(want, asg)
+			return v == w
+		})
+		switch {
+		case !ok:
+			r.Unknown("T7", sp.name+"|meaning", pos, fmt.Sprintf("kind=undecided: %d atoms", n))
+		case bad != nil:
+			v, _ := evalQ(af, bad)
+			r.Bad("T7", sp.name+"|meaning", pos, fmt.Sprintf("%s answers %v where its meaning (%s) says %v, when %s%s", sp.name, v, want, !v, showAsg(bad), unmappedNote(unmapped)))
+		default:
+			r.OK("T7", sp.name+"|meaning", pos, "≡ "+want.String(), fmt.Sprintf("%d atoms", n), true)
 		}
 	}
-	if nCmp == 0 {
-		r.Unknown("T6", "comparisons", "-", "kind=undecided: no comparison of version-group positions found")
-	}
-	// T7b: identifierInRange(simple, plus)
-	if iir := p.Func(p.ExpPkg, "(*nodePair).identifierInRange"); iir != nil {
-		qz2 := &quantizer{p: p, elemVar: map[ssa.Value]string{}}
-		f := qz2.funcFormulaWith(iir, 0, nil)
-		s := ""
-		if f != nil {
-			s = f.String()
-		}
-		wantA := "spdxexp.compareGT(param:nodes.firstNode, param:nodes.secondNode)"
-		wantB := "spdxexp.compareEQ(param:nodes.firstNode, param:nodes.secondNode)"
-		flat := formulaAtoms(f)
-		if f != nil && f.Op == "or" && containsStr(flat, wantA) && containsStr(flat, wantB) && len(flat) == 2 {
-			r.OK("T7", "identifierInRange", p.pos(iir.Pos()), "later-or-equal of (simple, plus)", s, true)
-		} else {
-			r.Bad("T7", "identifierInRange", p.pos(iir.Pos()), "identifierInRange is not 'first is later than or equal to second' on its own pair: "+s)
-		}
-	} else {
-		r.Unknown("T7", "identifierInRange", "-", "unresolved anchor")
-	}
+	r.Extra["position_formulas"] = dbg
 	// T8
 	if lr := p.Func(p.LicPkg, "LicenseRanges"); lr != nil {
 		fr := &freshness{p: p, memo: map[ssa.Value]string{}, taint: &taintResult{Params: map[*ssa.Parameter]bool{}}}
@@ -289,6 +322,113 @@ func rulesRangeCode(p *Prog, r *Report) {
 			r.Bad("T8", "LicenseRanges", p.pos(lr.Pos()), "the range table handed to readers is shared: "+bad)
 		}
 	}
+}
+
+func unmappedNote(u []string) string {
+	if len(u) == 0 {
+		return ""
+	}
+	sort.Strings(u)
+	return "; atoms without a reading: " + shortDesc(strings.Join(uniqStrings(u), " | "))
+}
+
+// abstractPosAtom maps a concrete atom of a position-comparing function onto an abstract proposition
+// about its two terms A (described by a) and B (described by b):
+//   LIC(X)  X is a license node            LOC(X)  X's id is in the range table
+//   FAM     both ids in the same family    VEQ     same version group
+//   LATER(X,Y)  X's version group is after Y's    IDEQ  the two ids are the same string
+// The license id of a term may be spelled through the accessor or through the fields.
+func abstractPosAtom(atom, a, b, roleL string, lk locKeys) (string, bool, bool) {
+	term := func(s string) string {
+		switch s {
+		case a:
+			return "A"
+		case b:
+			return "B"
+		}
+		return ""
+	}
+	lid := func(s string) string { // license id expression -> term
+		for _, pre := range []string{"*(*spdxexp.node).license("} {
+			if strings.HasPrefix(s, pre) && strings.HasSuffix(s, ")") {
+				return term(s[len(pre) : len(s)-1])
+			}
+		}
+		if strings.HasSuffix(s, ".lic.license") {
+			return term(strings.TrimSuffix(s, ".lic.license"))
+		}
+		return ""
+	}
+	rng := func(s string) string { // range expression -> term
+		const pre = "spdxexp.getLicenseRange("
+		if strings.HasPrefix(s, pre) && strings.HasSuffix(s, ")") {
+			return lid(s[len(pre) : len(s)-1])
+		}
+		return ""
+	}
+	loc := func(s string) (string, string) { // R.location[k] -> term, k
+		i := strings.LastIndex(s, ".location[")
+		if i < 0 || !strings.HasSuffix(s, "]") {
+			return "", ""
+		}
+		return rng(s[:i]), s[i+len(".location[") : len(s)-1]
+	}
+	if !strings.HasPrefix(atom, "(") || !strings.HasSuffix(atom, ")") {
+		return "", false, false
+	}
+	inner := atom[1 : len(atom)-1]
+	for _, op := range []string{" == ", " < "} {
+		depth := 0
+		for i := 0; i+len(op) <= len(inner); i++ {
+			switch inner[i] {
+			case '(', '{', '[':
+				depth++
+			case ')', '}', ']':
+				depth--
+			}
+			if depth != 0 || inner[i:i+len(op)] != op {
+				continue
+			}
+			l, rr := inner[:i], inner[i+len(op):]
+			if op == " == " {
+				// role test
+				for _, pr := range [][2]string{{l, rr}, {rr, l}} {
+					if pr[0] == roleL && strings.HasSuffix(pr[1], ".role") {
+						if t := term(strings.TrimSuffix(pr[1], ".role")); t != "" {
+							return "LIC(" + t + ")", false, true
+						}
+					}
+					if pr[0] == "nil" {
+						if t := rng(pr[1]); t != "" {
+							return "LOC(" + t + ")", true, true // (nil == R) is ¬LOC
+						}
+					}
+				}
+				if t1, t2 := lid(l), lid(rr); t1 != "" && t2 != "" && t1 != t2 {
+					return "IDEQ", false, true
+				}
+				t1, k1 := loc(l)
+				t2, k2 := loc(rr)
+				if t1 != "" && t2 != "" && t1 != t2 && k1 == k2 {
+					switch k1 {
+					case lk.group:
+						return "FAM", false, true
+					case lk.version:
+						return "VEQ", false, true
+					}
+				}
+				return "", false, false
+			}
+			// l < r
+			t1, k1 := loc(l)
+			t2, k2 := loc(rr)
+			if t1 != "" && t2 != "" && t1 != t2 && k1 == lk.version && k2 == lk.version {
+				return "LATER(" + t2 + "," + t1 + ")", false, true
+			}
+			return "", false, false
+		}
+	}
+	return "", false, false
 }
 
 func formulaAtoms(f *qf) []string {
@@ -354,13 +494,65 @@ func canonBool(f *qf) string {
 		}
 		return "(" + strings.Join(parts, sep) + ")"
 	case "not":
-		return "¬" + canonBool(f.Args[0])
+		inner := canonBool(f.Args[0])
+		if strings.HasPrefix(inner, "¬") {
+			return strings.TrimPrefix(inner, "¬")
+		}
+		return "¬" + inner
 	case "atom":
 		return canonAtom(f.Atom)
 	case "ite":
 		return "ite(" + canonBool(f.Args[0]) + "," + canonBool(f.Args[1]) + "," + canonBool(f.Args[2]) + ")"
 	}
 	return f.String()
+}
+
+// normQF rewrites comparison atoms to a canonical spelling so that equivalent source forms give the same
+// proposition: (a != b) → ¬(a == b), (a > b) → (b < a), (a >= b) → ¬(a < b), (a <= b) → ¬(b < a);
+// operands of == are sorted by canonAtom.
+func normQF(q *qf) *qf {
+	if q == nil {
+		return nil
+	}
+	if q.Op == "atom" {
+		a := q.Atom
+		if strings.HasPrefix(a, "(") && strings.HasSuffix(a, ")") {
+			inner := a[1 : len(a)-1]
+			for _, op := range []string{" != ", " >= ", " <= ", " > "} {
+				depth := 0
+				for i := 0; i+len(op) <= len(inner); i++ {
+					switch inner[i] {
+					case '(', '{', '[':
+						depth++
+					case ')', '}', ']':
+						depth--
+					}
+					if depth == 0 && inner[i:i+len(op)] == op {
+						l, r := inner[:i], inner[i+len(op):]
+						switch op {
+						case " != ":
+							return qNot(&qf{Op: "atom", Atom: canonAtom("(" + l + " == " + r + ")")})
+						case " >= ":
+							return qNot(&qf{Op: "atom", Atom: "(" + l + " < " + r + ")"})
+						case " <= ":
+							return qNot(&qf{Op: "atom", Atom: "(" + r + " < " + l + ")"})
+						case " > ":
+							return &qf{Op: "atom", Atom: "(" + r + " < " + l + ")"}
+						}
+					}
+				}
+			}
+		}
+		return &qf{Op: "atom", Atom: canonAtom(a)}
+	}
+	n := &qf{Op: q.Op, Atom: q.Atom, Coll: q.Coll, Var: q.Var}
+	for _, a := range q.Args {
+		n.Args = append(n.Args, normQF(a))
+	}
+	if n.Op == "not" && len(n.Args) == 1 {
+		return qNot(n.Args[0])
+	}
+	return n
 }
 
 // canonAtom sorts the operands of symmetric comparisons "(a == b)" / "(a != b)" and of EqualFold.
